@@ -271,6 +271,67 @@ def gen_msg (rng, k):
   raise KeyError(k)
 
 
+def nx_layout (ctx, cname, m, b):
+  """
+  NXT_FLOW_MOD / NXT_PACKET_IN byte layout stated independently of the
+  library's own arithmetic: fixed part, nx_match, zero padding up to the next
+  multiple of 8 (none when already aligned), then actions / 2 pad bytes +
+  frame.  A self-consistent pack/unpack pair with a wrong layout still
+  round-trips; only this comparison sees it.
+  """
+  n = nx()
+  pad8 = lambda x: (x + 7) // 8 * 8
+  def bad (what, detail):
+    ctx.fire(cname, "NX layout: " + what, detail)
+  try:
+    if isinstance(m, n.nx_flow_mod) and not getattr(m, "data", None):
+      if len(b) < 48: bad("shorter than the fixed part", b.hex()); return
+      (cookie, command, idle, hard, prio, buf, outp, flags, mlen) = \
+          struct.unpack_from("!QHHHHLHHH", b, 16)
+      mb = m.match.pack()
+      acts = b"".join(a.pack() for a in m.actions)
+      want = [("cookie", cookie, m.cookie),
+              ("command", command, m.command | (m.table_id << 8)),
+              ("idle_timeout", idle, m.idle_timeout),
+              ("hard_timeout", hard, m.hard_timeout),
+              ("priority", prio, m.priority),
+              ("buffer_id", buf, 0xffffffff if m.buffer_id is None else m.buffer_id),
+              ("out_port", outp, m.out_port), ("flags", flags, m.flags),
+              ("match_len", mlen, len(mb))]
+      for name, got, exp in want:
+        if got != exp: bad("field %s" % name, "%r on the wire, object has %r" % (got, exp)); return
+      if b[42:48] != bytes(6): bad("pad after match_len not zero", b[42:48].hex()); return
+      if len(b) != 48 + pad8(mlen) + len(acts):
+        bad("length is not 48 + match padded to 8 + actions",
+            "%d bytes, match_len %d, actions %d" % (len(b), mlen, len(acts))); return
+      if b[48:48 + mlen] != mb: bad("match bytes", ""); return
+      if b[48 + mlen:48 + pad8(mlen)] != bytes(pad8(mlen) - mlen):
+        bad("match padding not zero", ""); return
+      if b[48 + pad8(mlen):] != acts: bad("actions do not follow the padded match", ""); return
+      ctx.rep.count("nx_layouts_checked")
+    elif isinstance(m, n.nxt_packet_in):
+      if len(b) < 40: bad("shorter than the fixed part", b.hex()); return
+      buf, total_len, reason, table_id, cookie, mlen = struct.unpack_from("!LHBBQH", b, 16)
+      mb = m.match.pack()
+      data = m.data or b""
+      want = [("buffer_id", buf, 0xffffffff if m.buffer_id is None else m.buffer_id),
+              ("total_len", total_len, m.total_len), ("reason", reason, m.reason),
+              ("table_id", table_id, m.table_id), ("cookie", cookie, m.cookie),
+              ("match_len", mlen, len(mb))]
+      for name, got, exp in want:
+        if got != exp: bad("field %s" % name, "%r on the wire, object has %r" % (got, exp)); return
+      if len(b) != 40 + pad8(mlen) + 2 + len(data):
+        bad("length is not 40 + match padded to 8 + 2 + frame",
+            "%d bytes, match_len %d, frame %d" % (len(b), mlen, len(data))); return
+      if b[40:40 + mlen] != mb: bad("match bytes", ""); return
+      if b[40 + mlen:40 + pad8(mlen) + 2] != bytes(pad8(mlen) - mlen + 2):
+        bad("padding not zero", ""); return
+      if b[40 + pad8(mlen) + 2:] != data: bad("frame does not follow the padding", ""); return
+      ctx.rep.count("nx_layouts_checked")
+  except Exception as e:
+    bad("layout check could not read the object (%s)" % type(e).__name__, repr(e))
+
+
 def roundtrip_message (ctx, m, rng, cname=None):
   cname = cname or type(m).__name__
   try:
@@ -298,6 +359,7 @@ def roundtrip_message (ctx, m, rng, cname=None):
   if subtype != m.subtype:
     ctx.fire(cname, "vendor subtype", "%d vs %d" % (subtype, m.subtype))
   ctx.rep.count("layout_compared")
+  nx_layout(ctx, cname, m, b)
   pre = rbytes(rng, rng.choice([0, 8]))
   for suffix in (b"", rbytes(rng, 16)):
     try:
